@@ -23,6 +23,15 @@ Definition views_of_entries (vec : res tensor) (unf : nat -> res tensor) (shp : 
        forall idx, inb shp idx -> get d u [nth m idx 0; ravel (remove_nth m shp) (remove_nth m idx)] = E idx) /\
   (forall m, length shp <= m -> unf m = Err).
 
+Lemma views_of_entries_unfold vec unf shp E :
+  views_of_entries vec unf shp E <->
+  (exists v, vec = Ok v /\ shape v = [prod shp] /\ forall idx, inb shp idx -> get d v [ravel shp idx] = E idx) /\
+  (forall m, m < length shp ->
+     exists u, unf m = Ok u /\ shape u = [nth m shp 0; prod (remove_nth m shp)] /\
+       forall idx, inb shp idx -> get d u [nth m idx 0; ravel (remove_nth m shp) (remove_nth m idx)] = E idx) /\
+  (forall m, length shp <= m -> unf m = Err).
+Proof. reflexivity. Qed.
+
 Lemma unfold_layout_nowf (t : tensor) m : m < ndim t -> nth m (shape t) 0 <> 0 ->
   exists u, unfold d t m = Ok u /\ shape u = [nth m (shape t) 0; prod (remove_nth m (shape t))] /\
     forall idx, inb (shape t) idx ->
